@@ -1,9 +1,11 @@
 import RimeModel.Basic.Hex
 import RimeModel.C18.Parse
 import RimeModel.C18.Value
+import RimeModel.C18.Ref
 /-! line protocol for C18 (same ops as harness/c18_harness.cc):
   new cpp|api | set <path> <type> … | get <path> <type> | dump | emit | parse <hex> | rt |
-  alias <path> | aliasdump | raw <dump>
+  alias <path> | aliasdump | raw <dump> | get <path> is | iter <path> list|map | sign <signerhex> |
+  setitem <dst> <src> | setraw <path> <dump> | ref <steps> <action> [args]   (steps: `-` or k<hex>,i<n>,…)
 The YAML writer policy is the one regenerated from the working tree (`currentPolicy`); an optional
 command-line argument `legacy` / `safe` overrides it (used by the check to ask "what would the other
 policy do"). -/
@@ -76,6 +78,97 @@ def showRet (r : Option Cfg) (st : St) : St × String :=
 
 def intStr (i : Int) : String := if i < 0 then "-" ++ toString i.natAbs else toString i.natAbs
 
+def b01 (b : Bool) : String := if b then "1" else "0"
+
+def flags4 (f : Bool × Bool × Bool × Bool) : String := b01 f.1 ++ b01 f.2.1 ++ b01 f.2.2.1 ++ b01 f.2.2.2
+
+def parseSteps (s : String) : Option (List RStep) :=
+  if s == "-" then some [] else
+  (s.splitOn ",").mapM fun tok =>
+    if tok.startsWith "k" then (Hex.decode (tok.drop 1).toString).map RStep.key
+    else if tok.startsWith "i" then ((tok.drop 1).toString.toNat?).map RStep.idx
+    else none
+
+def showItems (xs : List (Bytes × Bytes)) : String :=
+  "ret=1 n=" ++ toString xs.length ++ " items=" ++
+    (if xs.isEmpty then "-" else ",".intercalate (xs.map fun kp => Hex.encode kp.1 ++ ":" ++ Hex.encode kp.2))
+
+/-- the fields `Signature::Sign` writes, with the values the harness fixes / blanks -/
+def signFields (signer : Bytes) : List (Bytes × Bytes) :=
+  [("generator".toUTF8.toList, signer), ("modified_time".toUTF8.toList, "T".toUTF8.toList),
+   ("distribution_code_name".toUTF8.toList, "verif".toUTF8.toList), ("distribution_version".toUTF8.toList, "1".toUTF8.toList),
+   ("rime_version".toUTF8.toList, "V".toUTF8.toList)]
+
+def refStep (st : St) (steps : List RStep) (act : List String) : St × String :=
+  let viv := refViv st.root steps
+  let cur := refGet viv steps
+  match act with
+  | ["tos"] => ({ st with root := viv }, "val=" ++ Hex.encode (refToString cur))
+  | ["toi"] => ({ st with root := viv }, "val=" ++ intStr (refToInt cur))
+  | ["tob"] => ({ st with root := viv }, "val=" ++ b01 (refToBool cur))
+  | ["is"] => ({ st with root := viv }, "val=" ++ flags4 (refFlags cur))
+  | ["size"] => ({ st with root := viv }, "val=" ++ toString (refSize cur))
+  | ["has", k] =>
+    match Hex.decode k with
+    | some k => ({ st with root := viv }, "val=" ++ b01 (refHasKey cur k))
+    | none => (st, "bad-op")
+  | ["assign", "s", v] =>
+    match Hex.decode v with
+    | some v => ({ st with root := refSet st.root steps (.scalar v) }, "ok")
+    | none => (st, "bad-op")
+  | ["assign", "i", v] =>
+    match parseInt32 v with
+    | some v => ({ st with root := refSet st.root steps (valSetInt v) }, "ok")
+    | none => (st, "bad-op")
+  | ["assign", "b", v] => ({ st with root := refSet st.root steps (valSetBool (v == "1")) }, "ok")
+  | ["assign", "null"] => ({ st with root := refSet st.root steps .null }, "ok")
+  | ["clear"] => ({ st with root := refSet st.root steps .null }, "ok")
+  | ["append", "s", v] =>
+    match Hex.decode v with
+    | some v => ({ st with root := refAppend st.root steps (.scalar v) }, "ok")
+    | none => (st, "bad-op")
+  | ["aslist"] => ({ st with root := refAsList st.root steps }, "ok")
+  | ["asmap"] => ({ st with root := refAsMap st.root steps }, "ok")
+  | _ => (st, "bad-op")
+
+def scalarOrNull (t : Cfg) : String :=
+  match t with
+  | .scalar v => "val=" ++ Hex.encode v
+  | _ => "val=null"
+
+/-- the container at a path used directly (in-place `ConfigList` / `ConfigMap` methods) -/
+def nodeStep (st : St) (p : Bytes) (act : List String) : St × String :=
+  let node := traverse st.root p
+  let put (t : Cfg) : St × String := ({ st with root := (traverseWrite st.root p t).getD st.root }, "ok")
+  let listOp : Bool := ["valueat", "resize", "clearlist", "insert", "setat", "appendl"].contains (act.headD "")
+  match node, listOp with
+  | .list xs, true =>
+    match act with
+    | ["valueat", i] => (st, match i.toNat? with | some i => scalarOrNull (listGet xs i) | none => "bad-op")
+    | ["resize", n] => match n.toNat? with | some n => put (.list (padTo (xs.take n) n)) | none => (st, "bad-op")
+    | ["clearlist"] => put (.list [])
+    | ["insert", i, "s", v] =>
+      match i.toNat?, Hex.decode v with
+      | some i, some v => put (.list (listInsert xs i (.scalar v)))
+      | _, _ => (st, "bad-op")
+    | ["setat", i, "s", v] =>
+      match i.toNat?, Hex.decode v with
+      | some i, some v => put (.list (listSetAt xs i (.scalar v)))
+      | _, _ => (st, "bad-op")
+    | ["appendl", "s", v] =>
+      match Hex.decode v with
+      | some v => put (.list (xs ++ [.scalar v]))
+      | none => (st, "bad-op")
+    | _ => (st, "bad-op")
+  | _, true => (st, "no-list")
+  | .map kvs, false =>
+    match act with
+    | ["mapvalue", k] => (st, match Hex.decode k with | some k => scalarOrNull (mapGet kvs k) | none => "bad-op")
+    | ["haskey", k] => (st, match Hex.decode k with | some k => "val=" ++ b01 (!(mapGet kvs k).isNull) | none => "bad-op")
+    | ["clearmap"] => put (.map [])
+    | _ => (st, "bad-op")
+  | _, false => (st, "no-map")
+
 def step (pol : LitPolicy) (st : St) (line : String) : St × String :=
   match line.trimAscii.toString.splitOn " " with
   | ["new", m] => if m == "cpp" || m == "api" then ({}, "ok") else (st, "bad-op")
@@ -104,6 +197,37 @@ def step (pol : LitPolicy) (st : St) (line : String) : St × String :=
       else if ty == "null" then showRet (traverseWrite st.root p .null) st
       else (st, "bad-op")
     | _ => (st, "bad-op")
+  | ["get", p, "is"] =>
+    match Hex.decode p with
+    | some p => (st, "ret=1 val=" ++ flags4 (isFlags st.root p))
+    | none => (st, "bad-op")
+  | ["iter", p, kind] =>
+    match Hex.decode p with
+    | some p =>
+      if kind == "list" then (st, match iterList st.root p with | some xs => showItems xs | none => "ret=0")
+      else if kind == "map" then (st, match iterMap st.root p with | some xs => showItems xs | none => "ret=0")
+      else (st, "bad-op")
+    | none => (st, "bad-op")
+  | ["sign", g] =>
+    match Hex.decode g with
+    | some g => ({ st with root := signWith st.root "signature".toUTF8.toList (signFields g) }, "ret=1")
+    | none => (st, "bad-op")
+  | ["setitem", d, sp] =>
+    match Hex.decode d, Hex.decode sp with
+    | some d, some sp => showRet (traverseWrite st.root d (traverse st.root sp)) st
+    | _, _ => (st, "bad-op")
+  | ["setraw", p, d] =>
+    match Hex.decode p, undump d.toList with
+    | some p, some (t, []) => showRet (traverseWrite st.root p t) st
+    | _, _ => (st, "bad-op")
+  | "node" :: p :: act =>
+    match Hex.decode p with
+    | some p => nodeStep st p act
+    | none => (st, "bad-op")
+  | "ref" :: steps :: act =>
+    match parseSteps steps with
+    | some ss => refStep st ss act
+    | none => (st, "bad-op")
   | ["get", p, ty] =>
     match Hex.decode p with
     | some p =>
